@@ -117,7 +117,12 @@ fn g_status(s: &OmahaStatus) -> String {
         OmahaStatus::Ok => "SOk".into(),
         OmahaStatus::Restricted => "SRestricted".into(),
         OmahaStatus::NoUpdate => "SNoUpdate".into(),
-        OmahaStatus::Error(e) => format!("(SError {})", gs(e)),
+        OmahaStatus::Error(e) => {
+            // self-test of `undebug` (used to read the private Ping.status) on every error string seen
+            let d = format!("{:?}", e);
+            assert!(undebug(&d[1..d.len() - 1]).as_deref() == Some(e.as_str()), "harness: undebug does not invert Debug");
+            format!("(SError {})", gs(e))
+        }
     }
 }
 fn g_value(v: &Value) -> String {
@@ -189,8 +194,7 @@ fn undebug(s: &str) -> Option<String> {
     }
     Some(out)
 }
-/// `Ping.status` is private: read it from the Debug rendering and confirm the
-/// reading by deserialising `{"status": s}` and comparing with `==`
+/// `Ping.status` is private: read it from the Debug rendering
 fn ping_status(p: &Ping) -> OmahaStatus {
     let d = format!("{:?}", p);
     let inner = d.strip_prefix("Ping { status: ").and_then(|x| x.strip_suffix(" }")).expect("Ping debug shape");
@@ -203,14 +207,6 @@ fn ping_status(p: &Ping) -> OmahaStatus {
             OmahaStatus::Error(undebug(q).expect("Ping debug escape"))
         }
     };
-    let text = match &st {
-        OmahaStatus::Ok => "ok".to_string(),
-        OmahaStatus::Restricted => "restricted".to_string(),
-        OmahaStatus::NoUpdate => "noupdate".to_string(),
-        OmahaStatus::Error(e) => e.clone(),
-    };
-    let back: Ping = serde_json::from_value(json!({ "status": text })).expect("ping rebuild");
-    assert!(back == *p, "Ping status misread");
     st
 }
 fn g_package(p: &Package) -> String {
@@ -538,7 +534,7 @@ impl Gen {
             2 | 3 => J::Str(rand_text(rng)),
             4 => J::Num(int_lit(rng)),
             5 => {
-                if rng.chance(1, 6) {
+                if rng.chance(1, 25) {
                     self.outside = true;
                     J::Num(float_lit(rng))
                 } else {
@@ -1082,9 +1078,48 @@ fn fixed_cases() -> Vec<Value> {
     v
 }
 
+/// JSON fragments (valid and invalid) placed where the value is typed, kept in an
+/// extension map, ignored, inside an ignored array, and as a whole document:
+/// the same grammar must be accepted by serde_json's value parser, its
+/// ignoring scanner and the model
+fn syntax_cases() -> Vec<Value> {
+    let frags: Vec<&[u8]> = vec![
+        // numbers
+        b"0", b"-0", b"00", b"01", b"-01", b"1", b"-1", b"+1", b"1.", b".5", b"1.5", b"-1.5", b"1e5", b"1E5", b"1e+5", b"1e-5", b"1e", b"1e+", b"1.e5",
+        b"1.5e", b"0e0", b"0.0", b"-0.0", b"-", b"-a", b"--1", b"1-", b"1e999", b"-1e999", b"1e-999", b"0x10", b"1_000", b"1 2", b"12345678901234567890123",
+        b"4294967295", b"4294967296", b"18446744073709551615", b"18446744073709551616", b"-9223372036854775808", b"-9223372036854775809", b"1.0", b"5e0",
+        // literals
+        b"null", b"nul", b"nulll", b"Null", b"true", b"tru", b"True", b"truee", b"false", b"fals", b"falsee", b"NaN", b"Infinity", b"-Infinity", b"undefined",
+        // strings
+        b"\"\"", b"\"a\"", b"\"\\/\"", b"\"\\u0000\"", b"\"\\u00e9\"", b"\"\\uD834\\uDD1E\"", b"\"\\ud834\\udd1e\"", b"\"\\x41\"", b"\"\\u12G4\"", b"\"\\u12\"", b"\"\\\"",
+        b"\"abc", b"\"a\tb\"", b"\"a\nb\"", b"\"a\x1fb\"", b"\"a\x7fb\"", b"\"a\x00b\"", b"'a'", b"\"\\a\"", b"\"\\U0041\"", b"\"\xc3\xa9\"", b"\"\xc3\"", b"\"\\ud834\"",
+        b"\"\\udd1e\"", b"\"\\ud834\\u0041\"", b"\"\\ud834\\n\"", b"\"\\ud834\\ud834\\udd1e\"", b"\"\\\\\"", b"\"\\b\\f\\n\\r\\t\"", b"\"\xef\xbb\xbf\"", b"\"\xf0\x9f\x98\x80\"", b"\"\xed\xa0\x80\"",
+        // structure
+        b"[]", b"[ ]", b"{}", b"{ }", b"[1,]", b"[,1]", b"[,]", b"[1,,2]", b"[1 2]", b"[1", b"[1,", b"]", b"[}", b"{]", b"{,}", b"{\"a\"}", b"{\"a\":}", b"{:1}", b"{\"a\":1,}",
+        b"{\"a\":1 \"b\":2}", b"{\"a\":1,\"a\":2}", b"{1:2}", b"{a:1}", b"{\"a\" 1}", b"{\"a\":1", b"{\"a\":1,", b"{\"a\"", b"{", b"}", b"[[],{}]", b"[{\"a\":[{}]}]",
+        b"/* c */ 1", b"1 // c", b"[1]x", b"{}{}", b"\x00", b" ", b"", b"\xef\xbb\xbf1", b"[\"\\ud800\"]", b"{\"\\ud800\":1}", b"{\"\xff\":1}", b"[\"\xff\"]",
+        b"\t\n\r 1 \t\n\r", b"\x0c1", b"\x0b1", b"\xc2\xa01",
+    ];
+    let mut v = vec![];
+    for f in frags {
+        let cat = |pre: &[u8], post: &[u8]| -> Vec<u8> { [pre, f, post].concat() };
+        v.push(case("syntax-typed", &cat(b"{\"response\":{\"protocol\":\"3.0\",\"daystart\":{\"elapsed_days\":", b"},\"app\":[]}}"), false, false));
+        v.push(case("syntax-typed-string", &cat(b"{\"response\":{\"protocol\":", b",\"app\":[]}}"), false, false));
+        v.push(case("syntax-kept", &cat(b"{\"response\":{\"protocol\":\"3.0\",\"app\":[{\"appid\":\"a\",\"status\":\"ok\",\"zz\":", b"}]}}"), false, true));
+        v.push(case("syntax-kept-cohort", &cat(b"{\"response\":{\"protocol\":\"3.0\",\"app\":[{\"appid\":\"a\",\"status\":\"ok\",\"cohort\":", b"}]}}"), false, false));
+        v.push(case("syntax-ignored", &cat(b"{\"response\":{\"protocol\":\"3.0\",\"zz\":", b",\"app\":[]}}"), false, false));
+        v.push(case("syntax-ignored-nested", &cat(b"{\"zz\":[{\"q\":[1,", b"]}],\"response\":{\"protocol\":\"3.0\",\"app\":[]}}"), false, false));
+        v.push(case("syntax-ignored-in-app", &cat(b"{\"response\":{\"protocol\":\"3.0\",\"app\":[{\"appid\":\"a\",\"status\":\"ok\",\"ping\":{\"status\":\"ok\",\"zz\":", b"}}]}}"), false, false));
+        v.push(case("syntax-key", &cat(b"{\"response\":{\"protocol\":\"3.0\",\"app\":[],", b":1}}"), false, false));
+        v.push(case("syntax-top", f, false, false));
+    }
+    v
+}
+
 // ---------------------------------------------------------------- generate
 pub fn generate(rng: &mut Rng, n: usize, thorough: bool) -> Vec<Value> {
     let mut v = fixed_cases();
+    v.extend(syntax_cases());
     // n documents of the grammar
     let mut docs: Vec<J> = vec![];
     for i in 0..n {
